@@ -219,7 +219,7 @@ class ExprMixin:
                 finally:
                     st.guards.pop()
                 return z3.And(v.t != 0, it)
-            srt = sort_of(ty)
+            srt = opt_of(ty)
             return z3.And(srt.is_some(v.t), self.truth(Val(inner, srt.val(v.t)), st))
         raise Unsupported(f"truth of {ty}")
 
@@ -236,7 +236,7 @@ class ExprMixin:
         if ty.name == "Opt":
             if is_reflike(ty.args[0]):
                 return v.t == 0
-            return sort_of(ty).is_none(v.t)
+            return opt_of(ty).is_none(v.t)
         if ty == ANYREF:
             return v.t == 0
         return z3.BoolVal(False)
@@ -249,7 +249,7 @@ class ExprMixin:
         st.raise_if(self.is_none(v, st), exc, site)
         if is_reflike(inner):
             return Val(inner, v.t)
-        return Val(inner, sort_of(v.ty).val(v.t))
+        return Val(inner, opt_of(v.ty).val(v.t))
 
     # -- boolean operators ---------------------------------------------------------------------
     def ev_BoolOp(self, e, st):
@@ -262,6 +262,9 @@ class ExprMixin:
                 vals.append(v)
                 if i < len(e.values) - 1:
                     t = self.truth(v, st)
+                    ts_ = z3.simplify(t)
+                    if (is_and and z3.is_false(ts_)) or (not is_and and z3.is_true(ts_)):
+                        break          # statically decided: the remaining operands are never evaluated
                     st.guards.append(t if is_and else z3.Not(t))
                     guards_pushed += 1
         finally:
@@ -430,7 +433,7 @@ class ExprMixin:
         inner = v.ty.args[0]
         if is_reflike(inner):
             return Val(inner, v.t)
-        return Val(inner, sort_of(v.ty).val(v.t))
+        return Val(inner, opt_of(v.ty).val(v.t))
 
     def contains(self, container, item, st, node=None):
         ty = container.ty
